@@ -38,6 +38,10 @@ func (fs LocalFileSystem) externalPath(name string) (string, error) {
 	if err != nil {
 		return "", err
 	}
+	if rel == "." {
+		// The served directory itself
+		return "/", nil
+	}
 	return "/" + filepath.ToSlash(rel), nil
 }
 
